@@ -181,6 +181,15 @@ func (w *World) checkReturned(o *op) (*sth, bool) {
 		s.Violate("cosigned-not-log-signed", o.Kind, "%s %s: the witness cosigned (%s), which carries no valid signature of %s: %v", o.Party, o.Kind, h, o.Log.name, err)
 		return nil, false
 	}
+	// reach: the same (size, timestamp, root) was cosigned before with another
+	// log id or another log signature (mirror logs, re-issued heads)
+	tk := fmt.Sprintf("%d|%d|%x", h.Size, h.TS, h.Root)
+	full := fmt.Sprintf("%s|%x", o.Log.name, h.Sig)
+	if prev, ok := w.cosigned[tk]; ok && prev != full {
+		s.Probe("cosigned.same-head-other-sth")
+	} else if !ok {
+		w.cosigned[tk] = full
+	}
 	msg := cosignedMessage(h)
 	for i, ws := range h.WSigs {
 		ds, err := oracle.ParseDigitallySigned(ws)
